@@ -554,7 +554,7 @@ def oracle_C15_lines(lines, il):
         if got != exp:
             v.append("step %d case %d (stored type %d <- source type %d, form %d%s%s): stored %s, T(source item) is %s" % (
                 i, k, T, U, f, " rvalue" if rv else "", " varying" if var else "", got, exp))
-        if U == 19 or (U == 20 and T == 21):
+        if U in (19, 22) or (U == 20 and T == 21):
             expm = [1 if (moves and j < n) else 0 for j in range(len(vals))]
             if f == 2:
                 expm = None                # generated items are temporaries
